@@ -287,6 +287,22 @@ class PairWorld:
                 for clause, detail in W.check_ports(self.host, app, others):
                     self.report(clause, 'runtime.allocate_network_ports', ev,
                                 **detail)
+                if others and app.ephemeral_ports.udp + [
+                        e for e in app.endpoints if e.proto == 'udp'] and \
+                        others[0].ephemeral_ports.udp + [
+                            e for e in others[0].endpoints
+                            if e.proto == 'udp']:
+                    self.stats['udp_start_next_to_udp_holder'] += 1
+            # one host <proto, ip, port> is redirected to one container only
+            seen = {}
+            for item in sorted(after):
+                if item[0] == 'rule' and ':dnat:' in item[1]:
+                    key = item[1].rsplit('-', 1)[0]
+                    if key in seen and item in self.reg[x]:
+                        self.report('two-dnat-rules-for-one-host-port',
+                                    '_run._unshare_network:rules/dnat', ev,
+                                    rules=[seen[key], item[1]])
+                    seen.setdefault(key, item[1])
             return
         # finish
         st = self.status[x]
@@ -465,7 +481,8 @@ def _run(ctx, t0):
                       time_cap=ctx.budget_s * 0.9)
     c = sw.counters
     if sw.nontrivial == 0 or c.get('finish_while_other_registered', 0) == 0 \
-            or c.get('repeated_finish_while_other_registered', 0) == 0:
+            or c.get('repeated_finish_while_other_registered', 0) == 0 \
+            or c.get('udp_start_next_to_udp_holder', 0) == 0:
         raise statex.HarnessError('vacuous run: %r' % (dict(c),))
     for k in ('with rules/dnat', 'with rules/snat', 'with rules/passthrough',
               'with endpoints/spec', 'with ipset/tm:vring-containers',
@@ -526,6 +543,8 @@ def _run(ctx, t0):
             'repeated_finishes_while_other_registered':
                 c.get('repeated_finish_while_other_registered', 0),
             'starts_next_to_running': c.get('start_next_to_running', 0),
+            'udp_starts_next_to_a_running_udp_holder':
+                c.get('udp_start_next_to_udp_holder', 0),
             'both_finished': c.get('both_finished', 0),
             'starts_that_raised': c.get('start_raised', 0),
         },
@@ -567,10 +586,14 @@ ASSUMPTIONS = [
     'treadmill.iptables ip-set functions over a fake subproc that interprets '
     'the ipset command line on Python sets (-exist makes add/del idempotent); '
     'conntrack calls are recorded only',
-    'fake socket module inside treadmill.runtime (bind fails with EADDRINUSE '
-    'on a port bound on the host, the first and last port of both ranges are '
-    'pre-bound by somebody else); random.sample replaced by three enumerated '
-    'orders (identity, reversed, rotated)',
+    'fake socket module inside treadmill.runtime with the Linux bind '
+    'semantics: bind fails with EADDRINUSE on a (type, port) held by a live '
+    'socket, except that udp sockets which ALL had SO_REUSEADDR set before '
+    'their bind share the port (tcp never: the holder is listening); the '
+    'first and last port of both ranges are pre-bound by somebody else '
+    'without the option; random.sample replaced by three enumerated orders '
+    '(identity, reversed, rotated), the same for every container of a host, '
+    'so two containers always draw the same ports first',
     'fake network service client: lowest free vip, get() after delete() or '
     'without put() returns None; newnet.create_newnet is a recorder; no '
     'firewall plugin is installed (plugin_manager.load fails and is caught, as '
